@@ -134,8 +134,17 @@ PrefixAlways == pc \in {"iter", "done"} => yielded = SubSeq(Expected, 1, Len(yie
 \* begin() == end() exactly when there is no edge
 BeginIsEndIffNoEdge == (steps = 1 /\ pc \in {"iter", "done"}) => ((pc = "done") <=> (Expected = <<>>))
 
+\* operator<< of the (un)labelled base classes, beyond the listed properties: the header with
+\* the size and one line per vertex listing its neighbours in list order
+RECURSIVE JoinNb(_)
+JoinNb(s) == IF s = <<>> THEN "" ELSE ToString(Head(s)) \o ", " \o JoinNb(Tail(s))
+RECURSIVE VertexLines(_)
+VertexLines(v) == IF v >= n THEN "" ELSE ToString(v) \o ": " \o JoinNb(lists[v]) \o "\n" \o VertexLines(v + 1)
+StreamText == (IF Directed THEN "Directed graph of size: " ELSE "Undirected graph of size: ") \o ToString(n)
+              \o "\nNeighbours of:\n" \o VertexLines(0)
+
 Emit == (EmitJson /\ pc' \in {"done", "oor"}) =>
            PrintT(ToJson([k |-> "iter", dir |-> Directed, n |-> n,
                           lists |-> [v \in 1 .. n |-> lists[v - 1]], ins |-> ins,
-                          yielded |-> yielded', oor |-> pc' = "oor"]))
+                          yielded |-> yielded', oor |-> pc' = "oor", text |-> StreamText]))
 =============================================================================
